@@ -10,8 +10,11 @@ pub mod c05;
 pub mod c06;
 pub mod c07;
 pub mod c08;
+pub mod c09;
 pub mod cer;
 pub mod c10;
+pub mod c11;
+pub mod c12;
 
 pub fn dispatch(args: &Args) -> Option<Report> {
     Some(match args.prop.as_str() {
@@ -23,7 +26,10 @@ pub fn dispatch(args: &Args) -> Option<Report> {
         "c06" => c06::run(args),
         "c07" => c07::run(args),
         "c08" => c08::run(args),
+        "c09" => c09::run(args),
         "c10" => c10::run(args),
+        "c11" => c11::run(args),
+        "c12" => c12::run(args),
         _ => return None,
     })
 }
